@@ -40,6 +40,7 @@ func (s *Seq) smallOpen() {
 		s.fail("read", "small-create-failed", "Create of the second collection failed: %v", err)
 	}
 	s.smallAsync = s.Cfg.Async
+	s.smallTimeoutMs = s.Cfg.TimeoutMs
 }
 
 func smallJSON(x *shapes.Small) string { b, _ := json.Marshal(x); return string(b) }
